@@ -1552,7 +1552,7 @@ def _vector_constraint(
         left_exprs = list(left._expressions)
 
     # Handle right operand
-    if isinstance(right, (int, float)):
+    if isinstance(right, (int, float, np.number)):
         # Scalar broadcast - create constraints directly
         return [_make_constraint(expr, sense, right) for expr in left_exprs]
     elif isinstance(right, VectorVariable):
@@ -1670,7 +1670,7 @@ def _vector_binary_op(
         left_exprs = list(left._expressions)
 
     # Handle right operand
-    if isinstance(right, (int, float)):
+    if isinstance(right, (int, float, np.number)):
         # Scalar broadcast
         right_exprs = [Constant(right)] * len(left_exprs)
     elif isinstance(right, VectorVariable):
